@@ -2,6 +2,7 @@ package main
 
 import (
 	"fmt"
+	"os"
 	"go/token"
 	"go/types"
 	"math/big"
@@ -129,7 +130,7 @@ func (e *Engine) callFunction(st *State, fr *Frame, site ssa.Instruction, callee
 	ct := e.cs.Funcs[fullKey(target)]
 	isSelf := false
 	for f := fr; f != nil; f = f.caller {
-		if originOf(f.fn) == originOf(target) {
+		if f.fn == target {
 			isSelf = true
 		}
 	}
@@ -156,6 +157,9 @@ func (e *Engine) inlineCall(st *State, fr *Frame, site ssa.Instruction, callee *
 	nf := e.newFrame(callee, fr, prefix)
 	nf.oldHeap = fr.oldHeap
 	nf.oldNext = fr.oldNext
+	if nf.contract != nil {
+		defer func() {}()
+	}
 	if len(args) != len(callee.Params) {
 		panic(unsupported(fmt.Sprintf("inline %s: %d args for %d params", callee, len(args), len(callee.Params))))
 	}
@@ -184,18 +188,43 @@ func (e *Engine) inlineCall(st *State, fr *Frame, site ssa.Instruction, callee *
 // pointer/slice arguments havocked.
 func (e *Engine) havocCall(st *State, fr *Frame, site ssa.Instruction, callee *ssa.Function, args []Value, k cont) {
 	name := externName(callee)
+	if os.Getenv("GOVC_DEBUG") != "" {
+		fmt.Fprintf(os.Stderr, "havocCall %s: blocks=%d origin=%v synthetic=%q depth=%d\n", callee, len(callee.Blocks), callee.Origin(), callee.Synthetic, fr.depth)
+	}
 	e.assumed["unmodelled call: "+name+" (results unconstrained; memory reachable from its arguments havocked; assumed not to panic)"] = true
 	sig := callee.Signature
 	for _, a := range args {
 		st.escape(a)
 	}
-	if !knownPure[name] {
+	if idx, ok := writesOnlyArg[name]; ok {
+		ts := sigParamTypes(callee)
+		if idx < len(args) && idx < len(ts) {
+			e.havocReach(st, args[idx], ts[idx], 0)
+		}
+	} else if !knownPure[name] {
 		e.havocArgs(st, args, sigParamTypes(callee))
 	}
 	k(st, e.freshResults(st, sig, shortName(name)))
 }
 
-var knownPure = map[string]bool{}
+// knownPure: external functions assumed not to modify memory reachable from their arguments
+// (listed in the evidence through the "unmodelled call" assumption of each use).
+var knownPure = map[string]bool{
+	"google.golang.org/protobuf/proto.Marshal": true,
+	"golang.org/x/crypto/blake2b.NewXOF":       true,
+	"go.brendoncarroll.net/tai64.ParseN":       true,
+	"encoding/asn1.Marshal":                    true,
+	"(time.Duration).Milliseconds":             true,
+	"time.Unix":                                true,
+	"(time.Time).UnixNano":                     true,
+}
+
+// writesOnlyArg: external functions that write only through the given argument
+var writesOnlyArg = map[string]int{
+	"google.golang.org/protobuf/proto.Unmarshal": 1,
+	"io.ReadFull":           1,
+	"encoding/asn1.Unmarshal": 1,
+}
 
 func shortName(s string) string {
 	if i := strings.LastIndex(s, "/"); i >= 0 {
@@ -258,7 +287,14 @@ func (e *Engine) havocReach(st *State, v Value, t types.Type, depth int) {
 				e.havocReach(st, x.F[i], st2.Field(i).Type(), depth+1)
 			}
 		}
-	case VIface, VFunc:
+	case VIface:
+		if x.Dyn != nil && x.DynT != nil && depth < 3 {
+			// the boxed value is known: only what it reaches
+			e.havocReach(st, x.Dyn, x.DynT, depth+1)
+			return
+		}
+		e.havocAllHeap(st, "dynamic argument")
+	case VFunc:
 		// opaque: may reach anything
 		e.havocAllHeap(st, "dynamic argument")
 	case Term:
@@ -371,7 +407,24 @@ func (e *Engine) ghostHooks(st *State, fr *Frame, when string, site ssa.Instruct
 		for _, cl := range h.Assume {
 			st.Assume(e.evalClause(st, fr, cl, vars))
 		}
+		for _, gs := range h.Sets {
+			e.setGhost(st, fr, gs, vars)
+		}
 	}
+}
+
+// setGhost evaluates a ghost assignment in the context of the frame.
+func (e *Engine) setGhost(st *State, fr *Frame, gs GhostSet, vars map[string]specVal) {
+	env := &SpecEnv{e: e, st: st, fr: fr, vars: map[string]specVal{}, oldHeap: fr.oldHeap, oldNext: fr.oldNext, pkg: pkgPathOf(fr.fn)}
+	for k, v := range vars {
+		env.vars[k] = v
+	}
+	v := env.eval(gs.E)
+	t, ok := v.v.(Term)
+	if !ok {
+		sfail("ghost variable %s: only scalar values are supported", gs.Name)
+	}
+	st.ghost["g!"+gs.Name] = t
 }
 
 // ---------------------------------------------------------------------------------------------
@@ -384,7 +437,13 @@ func resultNames(fn *ssa.Function) []string {
 	for i := 0; i < n; i++ {
 		nm := sig.Results().At(i).Name()
 		if nm == "" || nm == "_" {
-			if n == 1 {
+			clash := false
+			for _, p := range fn.Params {
+				if p.Name() == "ret" {
+					clash = true
+				}
+			}
+			if n == 1 && !clash {
 				nm = "ret"
 			} else {
 				nm = fmt.Sprintf("ret%d", i)
@@ -396,7 +455,7 @@ func resultNames(fn *ssa.Function) []string {
 }
 
 func (e *Engine) contractEnv(st *State, callee *ssa.Function, args []Value, res []Value, oldHeap map[string]Term, oldNext Term) *SpecEnv {
-	env := &SpecEnv{e: e, st: st, vars: map[string]specVal{}, oldHeap: oldHeap, oldNext: oldNext, pkg: pkgPathOf(callee)}
+	env := &SpecEnv{e: e, st: st, vars: map[string]specVal{}, oldHeap: oldHeap, oldNext: oldNext, pkg: pkgPathOf(callee), callSite: true}
 	// a pseudo frame gives access to package constants
 	env.fr = &Frame{fn: callee, vals: map[ssa.Value]Value{}, names: map[string]ssa.Value{}, nameAddr: map[string]bool{}, nameOver: map[string]Value{}}
 	for i, p := range callee.Params {
@@ -408,7 +467,7 @@ func (e *Engine) contractEnv(st *State, callee *ssa.Function, args []Value, res 
 		names := resultNames(callee)
 		for i, r := range res {
 			env.vars[names[i]] = specVal{r, callee.Signature.Results().At(i).Type()}
-			if len(res) == 1 {
+			if _, clash := env.vars["ret"]; len(res) == 1 && !clash {
 				env.vars["ret"] = specVal{r, callee.Signature.Results().At(i).Type()}
 			}
 		}
@@ -698,7 +757,7 @@ func (e *Engine) callIsPure(fr *Frame, c *ssa.CallCommon) bool {
 		return false
 	}
 	name := externName(callee)
-	if pureExterns[name] {
+	if pureExterns[name] || knownPure[name] {
 		return true
 	}
 	target := originOf(callee)
